@@ -14,6 +14,8 @@ use barter::{
         Engine, EngineOutput, Processor,
         action::{
             ActionOutput,
+            cancel_orders::CancelOrders,
+            close_positions::ClosePositions,
             generate_algo_orders::{GenerateAlgoOrders, GenerateAlgoOrdersOutput},
             send_requests::SendRequestsOutput,
         },
@@ -30,7 +32,11 @@ use barter::{
             trading::TradingState,
         },
     },
-    execution::{AccountStreamEvent, request::ExecutionRequest},
+    execution::{
+        AccountStreamEvent,
+        builder::{ExecutionBuildFutures, ExecutionBuilder},
+        request::ExecutionRequest,
+    },
     risk::{RiskApproved, RiskManager, RiskRefused},
     strategy::{
         algo::AlgoStrategy,
@@ -53,6 +59,7 @@ use barter_data::{
 use barter_execution::{
     AccountEvent, AccountEventKind, AccountSnapshot, InstrumentAccountSnapshot,
     balance::{AssetBalance, Balance},
+    client::mock::MockExecutionConfig,
     error::{ApiError, ConnectivityError, OrderError},
     order::{
         Order, OrderKey, OrderKind, TimeInForce,
@@ -86,7 +93,7 @@ use chrono::{DateTime, TimeZone, Utc};
 use rust_decimal::Decimal;
 use serde::{Deserialize, Serialize};
 use std::sync::{
-    Arc,
+    Arc, Mutex,
     atomic::{AtomicBool, Ordering},
 };
 use vh_common::{b, dec_scaled, list, opt, pair};
@@ -241,6 +248,12 @@ pub enum OpS {
     Generate,
     Action(CmdS),
     SetLink(usize, LinkS),
+    /// the public trait method called directly on the Engine: CancelOrders::cancel_orders /
+    /// ClosePositions::close_positions (SendCancels / SendOpens fall back to Engine::action)
+    Call(CmdS),
+    /// Engine::process of the event that triggers the strategy hook, whose code calls the trait
+    /// method for the command (0 account Reconnecting, 1 market Reconnecting, 2 TradingStateUpdate(Disabled))
+    Hook(u8, CmdS),
 }
 #[derive(Serialize, Deserialize, Clone, Debug, PartialEq, Eq, Default)]
 pub struct GS {
@@ -265,6 +278,10 @@ pub struct StepS {
 }
 #[derive(Serialize, Deserialize, Clone, Debug, PartialEq, Eq)]
 pub struct Spec {
+    /// build the execution-link map through the public `ExecutionBuilder` (add_mock for the
+    /// exchanges whose link is Open, no execution for the others) instead of `from_iter`
+    #[serde(default)]
+    pub builder: bool,
     /// which exchange-id table the instruments' `ex` indexes (see `EXSETS`)
     #[serde(default)]
     pub exset: u8,
@@ -298,6 +315,9 @@ impl Unrecoverable for HErr {
 pub struct HTx {
     tx: UnboundedTx<ExecutionRequest>,
     unhealthy: Arc<AtomicBool>,
+    /// sender-side record of every request the real channel accepted (used where the receiver is
+    /// owned by an ExecutionManager future built by `ExecutionBuilder`)
+    tap: Option<Arc<Mutex<Vec<ExecutionRequest>>>>,
 }
 impl Tx for HTx {
     type Item = ExecutionRequest;
@@ -306,7 +326,13 @@ impl Tx for HTx {
         if self.unhealthy.load(Ordering::SeqCst) {
             Err(HErr::Unhealthy)
         } else {
-            self.tx.send(item).map_err(HErr::Chan)
+            let item: ExecutionRequest = item.into();
+            let copy = self.tap.as_ref().map(|_| item.clone());
+            self.tx.send(item).map_err(HErr::Chan)?;
+            if let (Some(tap), Some(copy)) = (&self.tap, copy) {
+                tap.lock().unwrap().push(copy);
+            }
+            Ok(())
         }
     }
 }
@@ -314,20 +340,22 @@ impl Tx for HTx {
 pub struct LinkH {
     pub stat: LinkS,
     rx: Option<UnboundedRx<ExecutionRequest>>,
+    tap: Option<Arc<Mutex<Vec<ExecutionRequest>>>>,
 }
 
 fn make_link(stat: LinkS) -> (Option<HTx>, LinkH) {
     match stat {
-        LinkS::Missing => (None, LinkH { stat, rx: None }),
+        LinkS::Missing => (None, LinkH { stat, rx: None, tap: None }),
         _ => {
             let (tx, rx) = mpsc_unbounded::<ExecutionRequest>();
             let htx = HTx {
                 tx,
                 unhealthy: Arc::new(AtomicBool::new(stat == LinkS::Unhealthy)),
+                tap: None,
             };
             // a closed channel = the receiver is gone
             let rx = if stat == LinkS::Closed { None } else { Some(rx) };
-            (Some(htx), LinkH { stat, rx })
+            (Some(htx), LinkH { stat, rx, tap: None })
         }
     }
 }
@@ -344,10 +372,24 @@ pub enum CloseMode {
     Default { id: StrategyId, cid_base: u32 },
     Scripted(Vec<OrderRequestCancel>, Vec<OrderRequestOpen>),
 }
+#[derive(Clone)]
+pub enum HookCall {
+    Cancel(InstrumentFilter),
+    Close(InstrumentFilter),
+}
 pub struct Stub {
     pub cancels: Vec<OrderRequestCancel>,
     pub opens: Vec<OrderRequestOpen>,
     pub close: CloseMode,
+    /// what the strategy hooks do when the engine calls them: call the public trait method
+    pub hook: Option<HookCall>,
+}
+fn run_hook(engine: &mut Eng) -> Option<ActionOutput> {
+    match engine.strategy.hook.clone() {
+        None => None,
+        Some(HookCall::Cancel(f)) => Some(ActionOutput::CancelOrders(CancelOrders::cancel_orders(engine, &f))),
+        Some(HookCall::Close(f)) => Some(ActionOutput::ClosePositions(ClosePositions::close_positions(engine, &f))),
+    }
 }
 pub struct StubRisk {
     pub cmask: Vec<bool>,
@@ -399,20 +441,20 @@ impl ClosePositionsStrategy for Stub {
 }
 
 #[derive(Debug, PartialEq, Clone)]
-pub struct OnDisconnectOut;
+pub struct OnDisconnectOut(pub Option<ActionOutput>);
 #[derive(Debug, PartialEq, Clone)]
-pub struct OnTradingDisabledOut;
+pub struct OnTradingDisabledOut(pub Option<ActionOutput>);
 
 impl OnDisconnectStrategy<HistoricalClock, St, Txs, StubRisk> for Stub {
     type OnDisconnect = OnDisconnectOut;
-    fn on_disconnect(_: &mut Eng, _: ExchangeId) -> Self::OnDisconnect {
-        OnDisconnectOut
+    fn on_disconnect(engine: &mut Eng, _: ExchangeId) -> Self::OnDisconnect {
+        OnDisconnectOut(run_hook(engine))
     }
 }
 impl OnTradingDisabled<HistoricalClock, St, Txs, StubRisk> for Stub {
     type OnTradingDisabled = OnTradingDisabledOut;
-    fn on_trading_disabled(_: &mut Eng) -> Self::OnTradingDisabled {
-        OnTradingDisabledOut
+    fn on_trading_disabled(engine: &mut Eng) -> Self::OnTradingDisabled {
+        OnTradingDisabledOut(run_hook(engine))
     }
 }
 
@@ -779,6 +821,9 @@ fn event_of(ev: &EvS, eng: &Eng, many1: bool, step: usize) -> EngineEvent<DataKi
 pub struct Built {
     pub eng: Eng,
     pub links: Vec<LinkH>,
+    /// the ExecutionBuilder's account channel and (un-polled) futures, kept alive so that the
+    /// execution request receivers they own stay open
+    _keep: Option<(barter_integration::channel::Channel<AccountStreamEvent>, ExecutionBuildFutures)>,
 }
 
 pub fn build(spec: &Spec) -> Built {
@@ -787,7 +832,8 @@ pub fn build(spec: &Spec) -> Built {
     for (j, i) in spec.instruments.iter().enumerate() {
         let settle = || barter_instrument::asset::Asset::from(if i.settle.is_empty() { i.quote.as_str() } else { i.settle.as_str() });
         let csize = if i.csize == 0 { Decimal::ONE } else { d4(i.csize) };
-        let kind = match i.kind % 4 {
+        // the MockExchange behind ExecutionBuilder::add_mock supports spot instruments only
+        let kind = match if spec.builder { 0 } else { i.kind % 4 } {
             0 => InstrumentKind::Spot,
             1 => InstrumentKind::Perpetual(PerpetualContract { contract_size: csize, settlement_asset: settle() }),
             2 => InstrumentKind::Future(FutureContract { contract_size: csize, settlement_asset: settle(), expiry: time_of(86_400_000_000_000) }),
@@ -853,17 +899,62 @@ pub fn build(spec: &Spec) -> Built {
         }
     }
 
-    // one link per exchange index, in ExchangeIndex order, then spare entries
     let ids: Vec<ExchangeId> = state.connectivity.exchange_ids().copied().collect();
     let mut links = vec![];
-    let mut entries = vec![];
-    for (k, st) in spec.links.iter().enumerate() {
-        let id = if k < ids.len() { ids[k] } else { SPARE[(k - ids.len()) % SPARE.len()] };
-        let (tx, h) = make_link(*st);
-        entries.push((id, tx));
-        links.push(h);
-    }
-    let txs: Txs = MultiExchangeTxMap::from_iter(entries);
+    let mut keep = None;
+    let txs: Txs = if spec.builder {
+        // the public construction path: ExecutionBuilder with a mock execution for every exchange
+        // whose link is Open, none for the others; the resulting map's entries are wrapped one to one
+        let clock = HistoricalClock::new(time_of(0));
+        let mut bld = ExecutionBuilder::new(&instruments);
+        for (k, st) in spec.links.iter().enumerate() {
+            if k < ids.len() && *st == LinkS::Open {
+                bld = bld
+                    .add_mock(
+                        MockExecutionConfig {
+                            mocked_exchange: ids[k],
+                            initial_state: barter_execution::UnindexedAccountSnapshot {
+                                exchange: ids[k],
+                                balances: vec![],
+                                instruments: vec![],
+                            },
+                            latency_ms: 0,
+                            fees_percent: Decimal::ZERO,
+                        },
+                        clock.clone(),
+                    )
+                    .expect("add_mock");
+            }
+        }
+        let built = bld.build();
+        let mut entries = vec![];
+        let mut taps = vec![];
+        for (id, tx) in &built.execution_tx_map {
+            let tap = Arc::new(Mutex::new(vec![]));
+            entries.push((
+                *id,
+                tx.clone().map(|tx| HTx { tx, unhealthy: Arc::new(AtomicBool::new(false)), tap: Some(tap.clone()) }),
+            ));
+            taps.push(tap);
+        }
+        // one observation slot per CONFIGURED exchange; slot k watches entry k of the real map
+        for (k, st) in spec.links.iter().enumerate() {
+            let stat = if k < ids.len() && *st == LinkS::Open { LinkS::Open } else { LinkS::Missing };
+            links.push(LinkH { stat, rx: None, tap: taps.get(k).cloned() });
+        }
+        keep = Some((built.account_channel, built.futures));
+        MultiExchangeTxMap::from_iter(entries)
+    } else {
+        // one link per exchange index, in ExchangeIndex order, then spare entries
+        let mut entries = vec![];
+        for (k, st) in spec.links.iter().enumerate() {
+            let id = if k < ids.len() { ids[k] } else { SPARE[(k - ids.len()) % SPARE.len()] };
+            let (tx, h) = make_link(*st);
+            entries.push((id, tx));
+            links.push(h);
+        }
+        MultiExchangeTxMap::from_iter(entries)
+    };
     let eng = Engine::new(
         HistoricalClock::new(time_of(0)),
         state,
@@ -872,10 +963,11 @@ pub fn build(spec: &Spec) -> Built {
             cancels: vec![],
             opens: vec![],
             close: CloseMode::Scripted(vec![], vec![]),
+            hook: None,
         },
         StubRisk { cmask: vec![], omask: vec![] },
     );
-    Built { eng, links }
+    Built { eng, links, _keep: keep }
 }
 
 fn set_link(b: &mut Built, e: usize, st: LinkS) {
@@ -1182,6 +1274,13 @@ fn c_op(o: &OpS) -> String {
         OpS::Generate => "OpGenerate".into(),
         OpS::Action(c) => format!("(OpAction {})", c_cmd(c)),
         OpS::SetLink(e, st) => format!("(OpSetLink {} {})", e, c_lstat(*st)),
+        // a direct trait-method call is the same action as Engine::action of the command
+        OpS::Call(c) => format!("(OpAction {})", c_cmd(c)),
+        OpS::Hook(h, c) => format!(
+            "(OpHook {} {})",
+            ["HAccountReconnecting", "HMarketReconnecting", "HTradingDisabled"][(*h % 3) as usize],
+            c_cmd(c)
+        ),
     }
 }
 fn c_gs(g: &GS) -> String {
@@ -1215,6 +1314,11 @@ pub struct Ran {
 }
 
 fn install(eng: &mut Eng, st: &StepS) {
+    eng.strategy.hook = match &st.op {
+        OpS::Hook(_, CmdS::CancelOrders(f)) => Some(HookCall::Cancel(filter_of(f, st.many1))),
+        OpS::Hook(_, CmdS::ClosePositions(f)) => Some(HookCall::Close(filter_of(f, st.many1))),
+        _ => None,
+    };
     eng.strategy.cancels = st.g.cancels.iter().map(cancel_of).collect();
     eng.strategy.opens = st.g.opens.iter().map(open_of).collect();
     eng.risk.cmask = st.g.cmask.clone();
@@ -1237,6 +1341,11 @@ fn drain(links: &mut [LinkH]) -> Vec<String> {
             let mut got = vec![];
             if let Some(rx) = l.rx.as_mut() {
                 while let Ok(x) = rx.rx.try_recv() {
+                    got.push(c_xreq(&x));
+                }
+            }
+            if let Some(tap) = l.tap.as_ref() {
+                for x in tap.lock().unwrap().drain(..) {
                     got.push(c_xreq(&x));
                 }
             }
@@ -1278,6 +1387,8 @@ fn op_tag(o: &OpS) -> String {
         OpS::Generate => "direct_generate".into(),
         OpS::Action(_) => "direct_action".into(),
         OpS::SetLink(_, st) => format!("set_link_{}", c_lstat(*st)),
+        OpS::Call(_) => "direct_trait_call".into(),
+        OpS::Hook(h, _) => format!("hook_{}", ["on_disconnect_account", "on_disconnect_market", "on_trading_disabled"][(*h % 3) as usize]),
     }
 }
 fn filter_tag(c: &CmdS) -> Option<String> {
@@ -1335,8 +1446,14 @@ pub fn run(spec: &Spec) -> Ran {
     for l in &spec.links {
         tags.push(format!("init_link_{}", c_lstat(*l)));
     }
+    if spec.builder {
+        tags.push("map_via_execution_builder".into());
+        if spec.links.iter().position(|l| *l != LinkS::Open).is_some_and(|k| spec.links[k + 1..].iter().any(|l| *l == LinkS::Open)) {
+            tags.push("builder_linkless_before_linked".into());
+        }
+    }
     for i in &spec.instruments {
-        tags.push(format!("inst_kind_{}", ["spot", "perpetual", "future", "option"][(i.kind % 4) as usize]));
+        tags.push(format!("inst_kind_{}", ["spot", "perpetual", "future", "option"][if spec.builder { 0 } else { (i.kind % 4) as usize }]));
         if i.kind % 4 != 0 && i.csize != 10_000 && i.csize != 0 {
             tags.push("inst_contract_size_not_1".into());
         }
@@ -1381,6 +1498,58 @@ pub fn run(spec: &Spec) -> Ran {
                 let out = vh_common::catch(std::panic::AssertUnwindSafe(|| eng.action(&cmd)));
                 match out {
                     Ok(o) => format!("(RAction {})", c_action(&o, &mut stags)),
+                    Err(_) => "RPanic".into(),
+                }
+            }
+            OpS::Call(c) => {
+                if let Some(t) = filter_tag(c) {
+                    tags.push(t)
+                }
+                let eng = &mut bt.eng;
+                let many1 = st.many1;
+                let out = vh_common::catch(std::panic::AssertUnwindSafe(|| match c {
+                    CmdS::CancelOrders(f) => ActionOutput::CancelOrders(CancelOrders::cancel_orders(eng, &filter_of(f, many1))),
+                    CmdS::ClosePositions(f) => {
+                        ActionOutput::ClosePositions(ClosePositions::close_positions(eng, &filter_of(f, many1)))
+                    }
+                    other => eng.action(&command_of(other, many1)),
+                }));
+                match out {
+                    Ok(o) => format!("(RAction {})", c_action(&o, &mut stags)),
+                    Err(_) => "RPanic".into(),
+                }
+            }
+            OpS::Hook(h, c) => {
+                if let Some(t) = filter_tag(c) {
+                    tags.push(t)
+                }
+                let ev = match h % 3 {
+                    0 => EvS::AccountReconnecting,
+                    1 => EvS::MarketReconnecting,
+                    _ => EvS::Trading(false),
+                };
+                let event = event_of(&ev, &bt.eng, st.many1, step_idx);
+                let eng = &mut bt.eng;
+                let out = vh_common::catch(std::panic::AssertUnwindSafe(|| eng.process(event)));
+                match out {
+                    // what the hook's call returned, as the audit carries it; nothing if the hook did not fire
+                    Ok(EngineAudit::Process(p)) => {
+                        let hook_out = p.outputs.iter().find_map(|o| match o {
+                            EngineOutput::AccountDisconnect(OnDisconnectOut(x)) | EngineOutput::MarketDisconnect(OnDisconnectOut(x)) => {
+                                x.clone()
+                            }
+                            EngineOutput::OnTradingDisabled(OnTradingDisabledOut(x)) => x.clone(),
+                            _ => None,
+                        });
+                        match hook_out {
+                            Some(a) => format!("(RAction {})", c_action(&a, &mut stags)),
+                            None => {
+                                tags.push("hook_did_not_fire".into());
+                                "RNone".into()
+                            }
+                        }
+                    }
+                    Ok(_) => "RNone".into(),
                     Err(_) => "RPanic".into(),
                 }
             }
@@ -1429,7 +1598,7 @@ pub fn run(spec: &Spec) -> Ran {
 /// (rejected by corr_b; rejected by prop_b where the step is one the property speaks about).
 pub fn panicked() -> Ran {
     Ran {
-        coq: "(mkCase (mkState false [] [(mkInst 0 0 0 [] None None)]) [(mkStep OpGenerate (mkGScript [] [] [] []) (CloseScripted [] []) (mkObs false [] [([], None, None)] RPanic))])".into(),
+        coq: "(mkCase (mkState false [] [(mkInst 0 0 0 [] None (MD (L1 0 None None) None))]) [(mkStep OpGenerate (mkGScript [] [] [] []) (CloseScripted [] []) (mkObs false [] [([], None, (MD (L1 0 None None) None))] RPanic))])".into(),
         tags: vec!["harness_panic".into()],
         nontrivial: false,
     }
